@@ -8,7 +8,10 @@ Model: `AgModel.Finality` (= `src/consensus/pool/finality_tracker.rs` after the 
 real tracker by the correspondence run of `harness/src/bin/c08.rs`; the pool-level half (bounds checks,
 `PoolImpl::prune`) is in `AgModel.PoolTrack` / `Props/C08Pool.lean`.
 
-All theorems quantify over every tracker state satisfying the invariant `Inv` (established by `inv_init`,
+The run-level theorems (`safe_run_no_panic`, `reports_exact`, `reported_once`, `reports_timely`, `order_independent`,
+`retained_exact`, `watermark_exact`, `highest_exact`) quantify over every operation sequence from the initial
+tracker whose history satisfies the decidable safety premise `Safe`.
+The one-step theorems quantify over every tracker state satisfying the invariant `Inv` (established by `inv_init`,
 preserved by every successful operation: `step_preserves_inv`, hence along every operation sequence of any
 length: `run_preserves_inv`) and every operation (any slots, any hashes, any order).
 -/
@@ -82,11 +85,8 @@ theorem catches_up {t : Tracker} (h : Inv t) : ¬ Dec (t.status ((prune t).first
     certificate when the finalization certificate of the slot is already held (`FinalPendingNotar`), or by the
     finalization certificate of its slot when its notarization certificate is already held (`Notarized`).
 
-    Full statement (not proved as one theorem; the per-step halves below and the oracle of the harness
-    cover it): for every run from `init` with delivered certificate sets N, F, FF and links P, the
-    cumulative reports are exactly `DirectFinal = FF ∪ (F ⋈ N)`, their `P`-ancestors and the slots between, each
-    once.  Missing for the full statement: the trace-level invariant linking `Notarized`/`FinalPendingNotar`
-    entries to N / F, and the "each once" argument across one ancestor walk. -/
+    (One-step form kept from the first version; the full run-level statement is `reports_exact` /
+    `reported_once` / `reports_timely` below.) -/
 theorem finalized_justified_partial {t : Tracker} {op : Op} {t' : Tracker} {ev : Event} {b : Nat × Nat}
     (h : step t op = .ok t' ev) (hb : ev.finalized = some b) :
     op = .fastFinal b ∨ (op = .notar b ∧ t.status b.1 = some .finalPending) ∨
@@ -181,38 +181,6 @@ theorem reports_timely {pre : List Op} {op : Op} (sf : Safe (pre ++ [op])) {t1 :
       · exact absurd (ri1.soundS s x) hn
       · exact x
 
-/-- **order_independent.**  Two runs over the same *set* of inputs (any order, any multiplicities; the tracker
-    prunes whenever it does) end with the same watermark, the same answer for every slot at or above it (`view`
-    forgets only whether a block was finalized directly or through a descendant), and the same set of reports
-    (modulo genesis, see `genesis_report_depends_on_order`). -/
-theorem order_independent {ops1 ops2 : List Op} (hset : ∀ op, op ∈ ops1 ↔ op ∈ ops2) (sf : Safe ops1)
-    {t1 t2 : Tracker} {evs1 evs2 : List Event}
-    (h1 : run init ops1 = some (t1, evs1)) (h2 : run init ops2 = some (t2, evs2)) :
-    t1.first = t2.first ∧
-    (∀ s, t1.first ≤ s → view (t1.status s) = view (t2.status s)) ∧
-    (∀ b, 1 ≤ b.1 → (b ∈ repF evs1 ↔ b ∈ repF evs2)) ∧
-    (∀ s, s ∈ repS evs1 ↔ s ∈ repS evs2) := by
-  have hs : Sub ops1 ops2 := fun o h => (hset o).mp h
-  have hs' : Sub ops2 ops1 := fun o h => (hset o).mpr h
-  have sf2 : Safe ops2 := sf.sub hs'
-  have ri1 := runInv_of_run sf h1
-  have ri2 := runInv_of_run sf2 h2
-  have hf := first_eq sf hs hs' ri1 ri2
-  refine ⟨hf, ?_, ?_, ?_⟩
-  · intro s a
-    exact view_eq sf hs hs' ri1.rel ri2.rel s a (by omega)
-  · intro b hb
-    rw [ri1.final_iff sf b (Or.inl hb), ri2.final_iff sf2 b (Or.inl hb)]
-    exact ⟨Final.mono hs, Final.mono hs'⟩
-  · intro s
-    rw [ri1.skip_iff sf s, ri2.skip_iff sf2 s]
-    exact ⟨Skip.mono hs, Skip.mono hs'⟩
-
-/-- Two orders of the same inputs both run to the end (corollary of `safe_run_no_panic`). -/
-theorem order_independent_runs {ops1 ops2 : List Op} (hset : ∀ op, op ∈ ops1 ↔ op ∈ ops2) (sf : Safe ops1) :
-    (∃ t evs, run init ops1 = some (t, evs)) ∧ (∃ t evs, run init ops2 = some (t, evs)) :=
-  ⟨safe_run_no_panic sf, safe_run_no_panic (sf.sub (fun o h => (hset o).mpr h))⟩
-
 /-- **Pruning is lossless over whole runs.**  However often the tracker has pruned, the answer it holds for a
     slot at or above the watermark is the one the *complete* history demands: finalized with `h` iff `(s,h)` is in
     the closure, implicitly skipped iff in `Skip`, and otherwise exactly the certificates seen for the slot. -/
@@ -245,13 +213,55 @@ theorem watermark_exact {ops : List Op} (sf : Safe ops) {t : Tracker} {evs : Lis
     ¬ (Skip ops (t.first + 1) ∨ ∃ hh, Final ops (t.first + 1, hh)) :=
   (runInv_of_run sf h).watermark sf
 
-/-- Every finalized block of the history lies at or below `highest_finalized_slot`. -/
-theorem highest_bounds_final {ops : List Op} (sf : Safe ops) {t : Tracker} {evs : List Event}
-    (h : run init ops = some (t, evs)) {b : Nat × Nat} (hb : Final ops b) : b.1 ≤ t.highest := by
+/-- **`highest_finalized_slot` is exactly the highest slot of a finalized block of the history** (0 = genesis if
+    there is none). -/
+theorem highest_exact {ops : List Op} (sf : Safe ops) {t : Tracker} {evs : List Event}
+    (h : run init ops = some (t, evs)) :
+    (∀ b, Final ops b → b.1 ≤ t.highest) ∧ (t.highest = 0 ∨ ∃ b, Final ops b ∧ b.1 = t.highest) := by
   have ri := runInv_of_run sf h
+  refine ⟨?_, ri.hiAtt⟩
+  intro b hb
   by_cases hw : t.first ≤ b.1
   · exact ri.inv.dec_le _ (dec_of_finalHash (ri.rel.final_complete sf (Sub.refl _) hb hw))
   · have := ri.inv.first_le; omega
+
+/-- **order_independent.**  Two runs over the same *set* of inputs (any order, any multiplicities; the tracker
+    prunes whenever it does) end with the same watermark, the same answer for every slot at or above it (`view`
+    forgets only whether a block was finalized directly or through a descendant), and the same set of reports
+    (modulo genesis, see `genesis_report_depends_on_order`). -/
+theorem order_independent {ops1 ops2 : List Op} (hset : ∀ op, op ∈ ops1 ↔ op ∈ ops2) (sf : Safe ops1)
+    {t1 t2 : Tracker} {evs1 evs2 : List Event}
+    (h1 : run init ops1 = some (t1, evs1)) (h2 : run init ops2 = some (t2, evs2)) :
+    t1.first = t2.first ∧ t1.highest = t2.highest ∧
+    (∀ s, t1.first ≤ s → view (t1.status s) = view (t2.status s)) ∧
+    (∀ b, 1 ≤ b.1 → (b ∈ repF evs1 ↔ b ∈ repF evs2)) ∧
+    (∀ s, s ∈ repS evs1 ↔ s ∈ repS evs2) := by
+  have hs : Sub ops1 ops2 := fun o h => (hset o).mp h
+  have hs' : Sub ops2 ops1 := fun o h => (hset o).mpr h
+  have sf2 : Safe ops2 := sf.sub hs'
+  have ri1 := runInv_of_run sf h1
+  have ri2 := runInv_of_run sf2 h2
+  have hf := first_eq sf hs hs' ri1 ri2
+  have hle : ∀ {opsA opsB : List Op} {tA tB : Tracker} {eA eB : List Event}, Sub opsA opsB → Safe opsB →
+      RunInv opsA tA eA → run init opsB = some (tB, eB) → tA.highest ≤ tB.highest := by
+    intro opsA opsB tA tB eA eB hsub sfB riA hB
+    rcases riA.hiAtt with e | ⟨b, hb, e⟩
+    · omega
+    · rw [← e]; exact (highest_exact sfB hB).1 b (hb.mono hsub)
+  refine ⟨hf, Nat.le_antisymm (hle hs sf2 ri1 h2) (hle hs' sf ri2 h1), ?_, ?_, ?_⟩
+  · intro s a
+    exact view_eq sf hs hs' ri1.rel ri2.rel s a (by omega)
+  · intro b hb
+    rw [ri1.final_iff sf b (Or.inl hb), ri2.final_iff sf2 b (Or.inl hb)]
+    exact ⟨Final.mono hs, Final.mono hs'⟩
+  · intro s
+    rw [ri1.skip_iff sf s, ri2.skip_iff sf2 s]
+    exact ⟨Skip.mono hs, Skip.mono hs'⟩
+
+/-- Two orders of the same inputs both run to the end (corollary of `safe_run_no_panic`). -/
+theorem order_independent_runs {ops1 ops2 : List Op} (hset : ∀ op, op ∈ ops1 ↔ op ∈ ops2) (sf : Safe ops1) :
+    (∃ t evs, run init ops1 = some (t, evs)) ∧ (∃ t evs, run init ops2 = some (t, evs)) :=
+  ⟨safe_run_no_panic sf, safe_run_no_panic (sf.sub (fun o h => (hset o).mpr h))⟩
 
 /-! #### the safety premise is needed, and satisfiable -/
 
